@@ -120,6 +120,12 @@ func init() {
 			p.ghost[tag] = append(p.ghost[tag], copyVal(a[1]))
 			return nil
 		},
+		rtPkg + ".Or":      func(p *Path, _ *ssa.Function, a []Value) Value { return p.tb.Or(a[0].(*Term), a[1].(*Term)) },
+		rtPkg + ".And":     func(p *Path, _ *ssa.Function, a []Value) Value { return p.tb.And(a[0].(*Term), a[1].(*Term)) },
+		rtPkg + ".Implies": func(p *Path, _ *ssa.Function, a []Value) Value { return p.tb.Implies(a[0].(*Term), a[1].(*Term)) },
+		rtPkg + ".Ite64": func(p *Path, _ *ssa.Function, a []Value) Value {
+			return p.tb.Ite(a[0].(*Term), a[1].(*Term), a[2].(*Term))
+		},
 		rtPkg + ".Observe": func(p *Path, _ *ssa.Function, a []Value) Value {
 			return nil
 		},
@@ -232,6 +238,8 @@ func init() {
 		"runtime.Gosched":         nop,
 		"runtime.KeepAlive":       nop,
 		"time.Sleep":              nop,
+		"sort.Slice":              sortSliceIntrinsic,
+		"sort.SliceStable":        sortSliceIntrinsic,
 	}
 	registerBigIntrinsics()
 	registerMoreIntrinsics()
@@ -240,6 +248,50 @@ func init() {
 func nop(p *Path, _ *ssa.Function, _ []Value) Value { return nil }
 
 func intrinsicPrefix(name string) intrinsicFn {
+	switch {
+	case strings.HasPrefix(name, "slices.SortFunc["), strings.HasPrefix(name, "slices.SortStableFunc["):
+		return sortFuncIntrinsic
+	case strings.HasPrefix(name, "slices.Contains["):
+		return func(p *Path, _ *ssa.Function, a []Value) Value {
+			var c []*Term
+			for _, e := range a[0].(Slice) {
+				c = append(c, p.equal(e, a[1]))
+			}
+			return p.tb.Or(c...)
+		}
+	}
+	return nil
+}
+
+// sortFuncIntrinsic: insertion sort calling the real comparison closure symbolically.
+func sortFuncIntrinsic(p *Path, _ *ssa.Function, a []Value) Value {
+	s := a[0].(Slice)
+	cmp := a[1]
+	for i := 1; i < len(s); i++ {
+		for j := i; j > 0; j-- {
+			c := p.callFunction(cmp, []Value{copyVal(s[j-1]), copyVal(s[j])}, nil).(*Term)
+			if !p.branch(p.tb.Slt(p.tb.BV(0, 64), c)) {
+				break
+			}
+			s[j-1], s[j] = s[j], s[j-1]
+		}
+	}
+	return nil
+}
+
+// sortSliceIntrinsic: sort.Slice(x, less) as insertion sort over the live slice.
+func sortSliceIntrinsic(p *Path, _ *ssa.Function, a []Value) Value {
+	s := a[0].(Iface).v.(Slice)
+	less := a[1]
+	for i := 1; i < len(s); i++ {
+		for j := i; j > 0; j-- {
+			c := p.callFunction(less, []Value{p.tb.BV(uint64(j), 64), p.tb.BV(uint64(j-1), 64)}, nil).(*Term)
+			if !p.branch(c) {
+				break
+			}
+			s[j-1], s[j] = s[j], s[j-1]
+		}
+	}
 	return nil
 }
 
